@@ -487,6 +487,11 @@ def second_order(rng, mc: MeshCase, curved=None):
     m1 = mc.mesh
     ent = m1.edges if m1.dim() == 3 else m1.facets
     h = float(np.linalg.norm(m1.p[:, ent[0]] - m1.p[:, ent[1]], axis=0).min())
+    if mc.kind in ("tri", "tet"):
+        # thin simplices: bound the displacement by the smallest height-like length |det| / hmax^(d-1)
+        tt = np.asarray(m1.t)[:NVERT[mc.kind]]
+        hq = float((np.abs(simplex_dets(m1.p, tt)) / simplex_hmax(m1.p, tt) ** (m1.dim() - 1)).min())
+        h = min(h, 2.0 * hq)
     from dataclasses import replace
     X = _ref_sample_points(mc.kind)
     for attempt in range(8):
